@@ -225,6 +225,7 @@ func c03RunCtx(cs c03Case) (res c03Res) {
 	// connection failed cleanly? (an acceptable reaction to a late reply; the case then ends)
 	failedClean := func() bool { return cliWithin(200*time.Millisecond, func() { client.Wait() }) }
 	cleanStop := atomic.Bool{}
+	broken := atomic.Bool{}
 	check := func(who string, kind, got, want string, cerr error, k uint64, after string) {
 		count(kind)
 		if cerr == nil && got == want {
@@ -234,6 +235,9 @@ func c03RunCtx(cs c03Case) (res c03Res) {
 			cleanStop.Store(true)
 			return
 		}
+		// the first wrong result ends the run (stale replies cascade from here on; one concrete input is enough)
+		cleanStop.Store(true)
+		broken.Store(true)
 		if cerr != nil {
 			fail("error/"+kind+"/after-abandoned-request", fmt.Sprintf("%s: %s (k=%d) returned an error although its own request was answered successfully: %v  [%s]", who, kind, k, cerr, after), map[string]any{"k": k, "err": cerr.Error()})
 		} else {
@@ -364,7 +368,9 @@ func c03RunCtx(cs c03Case) (res c03Res) {
 		peer.Shutdown()
 		return
 	}
-	if cleanStop.Load() {
+	if broken.Load() {
+		// already reported
+	} else if cleanStop.Load() {
 		res.OpHist["connection-failed-cleanly-after-late-reply"]++
 	} else if n := sftp.VerifInflight(client); n != 0 {
 		fail("inflight-not-empty", fmt.Sprintf("%d entries remain in clientConn.inflight after every call returned and every request (the abandoned ones included) was answered", n), nil)
